@@ -417,7 +417,27 @@ def _unit_builder_rule(rep, m):
     ub = m.method("Quantity", "_CreateUnitsWithJoinedExponentsString")
     loops = [lp for lp in own_statements(ub.node) if isinstance(lp, ast.For)]
     ures = Resolver(m, ub)
-    ok = bool(loops) and all(any(a == ("call", ("field", "GetComposingUnitsJoiningExponents"), (), ()) for a in alternatives(ures.term(lp.iter))) for lp in loops)
+    JOINED = ("call", ("field", "GetComposingUnitsJoiningExponents"), (), ())
+
+    def derives(t, depth=0):
+        """the joined units themselves, or an order-preserving view of them: enumerate / list / tuple of them, a
+        comprehension over them that passes the items on unchanged (possibly filtered)"""
+        if t == JOINED:
+            return True
+        if depth > 4:
+            return False
+        if t[0] == "call" and t[1] in (("name", "enumerate"), ("name", "list"), ("name", "tuple")) and len(t[2]) == 1 and not t[3]:
+            return derives(t[2][0], depth + 1)
+        if t[0] == "gen" and len(t) >= 3:
+            its = t[2] if isinstance(t[2], tuple) else (t[2],)
+            if len(its) != 1 or not derives(its[0], depth + 1):
+                return False
+            el = ("elem", its[0])
+            elt = t[1]
+            return elt == el or (elt[0] == "tuple" and all(x == ("sub", el, ("const", i)) for i, x in enumerate(elt[1])))
+        return False
+
+    ok = bool(loops) and all(any(derives(a) for a in alternatives(ures.term(lp.iter))) and all(derives(a) for a in alternatives(ures.term(lp.iter))) for lp in loops)
     rep.check(ok, "C20.R5", "unit-builder:iterates-joined-units", "the unit builder iterates GetComposingUnitsJoiningExponents() in every loop",
               "a loop of the unit builder does not iterate the joined composing units", fn=ub)
 
